@@ -1,0 +1,18 @@
+//go:build verif
+
+package ratelimit
+
+import "github.com/vulcand/oxy/v2/verifhook"
+
+func verifEmit(ev string, obj interface{}, args ...interface{}) {
+	verifhook.Emit("ratelimit", ev, obj, args...)
+}
+
+// VerifTokens exposes the available tokens per period (verification builds only).
+func (tbs *TokenBucketSet) VerifTokens() map[int64]int64 {
+	out := make(map[int64]int64, len(tbs.buckets))
+	for p, b := range tbs.buckets {
+		out[int64(p)] = b.availableTokens
+	}
+	return out
+}
